@@ -10,7 +10,7 @@ use std::collections::HashMap;
 use vcore::bundlegen::{gen_bundle, puzzle, ABundle};
 use vcore::conditions::{evaluate, MFlags, MVisitor, Verdict};
 use vcore::report::run_cases;
-use vcore::{hx, Args, Report, Rng};
+use vcore::{hx, Args, Report, Rng, Sx};
 
 pub fn reveals_of(b: &ABundle) -> HashMap<[u8; 32], [u8; 32]> {
     b.spends.iter().map(|s| (s.coin_id(), puzzle(s.puzzle_idx).tree_hash())).collect()
@@ -84,6 +84,16 @@ fn random_flags(rng: &mut Rng) -> ConsensusFlags {
         (4, ConsensusFlags::SIMPLE_GENERATOR),
         (2, ConsensusFlags::LIMIT_SPENDS),
         (6, ConsensusFlags::INTERNED_GENERATOR),
+        // interpreter-level flags: both paths receive the same ones
+        (8, ConsensusFlags::CANONICAL_INTS),
+        (8, ConsensusFlags::NO_UNKNOWN_OPS),
+        (8, ConsensusFlags::LIMIT_HEAP),
+        (8, ConsensusFlags::LIMITS),
+        (8, ConsensusFlags::ENABLE_GC),
+        (8, ConsensusFlags::MALACHITE),
+        (8, ConsensusFlags::ENABLE_SHA256_TREE),
+        (8, ConsensusFlags::ENABLE_KECCAK_OPS_OUTSIDE_GUARD),
+        (8, ConsensusFlags::RELAXED_BLS),
     ] {
         if rng.chance(1, p) {
             f |= fl;
@@ -131,12 +141,21 @@ fn case_generated(ctx: &Ctx, rng: &mut Rng, rep: &mut Report, params: &vcore::bu
         gen_bundle(rng, params)
     };
     let form = rng.below(10);
-    let (program, form_name, known_output): (Vec<u8>, &str, bool) = match form {
-        0..=3 => (quoted_generator(&b).serialize(), "quoted-plain", true),
-        4..=5 => (serialize_backrefs(&quoted_generator(&b)), "quoted-backrefs", true),
-        6..=7 => (procedural_generator(&b).serialize(), "procedural", true),
-        _ => (mutate_bytes(rng, quoted_generator(&b).serialize()), "byte-mutated", false),
+    let (program_sx, form_name): (Sx, &str) = match form {
+        0..=3 => (quoted_generator(&b), "quoted-plain"),
+        4..=5 => (quoted_generator(&b), "quoted-backrefs"),
+        6 => (procedural_generator(&b), "procedural"),
+        7 => (computed_program(&generator_value(&b), rng, 0), "procedural-computed-atoms"),
+        _ => (quoted_generator(&b), "byte-mutated"),
     };
+    let known_output = form_name != "byte-mutated";
+    let program: Vec<u8> = match form_name {
+        "quoted-backrefs" => serialize_backrefs(&program_sx),
+        "byte-mutated" => mutate_bytes(rng, program_sx.serialize()),
+        _ => program_sx.serialize(),
+    };
+    // SIMPLE_GENERATOR admits exactly the programs of the form (q . x)
+    let is_plain_quote = program_sx.first().and_then(Sx::as_atom) == Some(&[1][..]);
     let mut flags = random_flags(rng);
     let refs: Vec<Vec<u8>> = match rng.below(10) {
         0 => vec![vec![0x80]],
@@ -167,7 +186,7 @@ fn case_generated(ctx: &Ctx, rng: &mut Rng, rep: &mut Report, params: &vcore::bu
             }
         }
     }
-    if simple && (form_name == "procedural" || !refs.is_empty()) {
+    if simple && (!is_plain_quote || !refs.is_empty()) {
         expected = Verdict::Reject("SIMPLE_GENERATOR: not a plain quoted list / block references given".into());
     }
 
